@@ -16,12 +16,19 @@ RULE = ('A case is (base, message list, readiness answers, transport answer scri
         '40-400 kB while the scripted server starts reading 0-50 ms late (real short writes: paramiko accepts at most one packet per '
         'send); the octets the server received are decoded by the strict receivers; the counts returned by the real _transport_write '
         'are recorded in a subclass (resubmission of the unsent tail, accepted == received). A failing peer case is re-executed 3 times. '
+        'Scheduled cases (kind wsched): the real Session.send callers (1-4 threads), the real Session.run and a thread assigning _base run under the '
+        'deterministic scheduler of tools/harness/sched.py with scripted write answers / readiness answers; a case is (spec, decision list); 10 scenarios '
+        'enumerated for 1 pre-emption completely and for <= 2 (thorough <= 3) pre-emptions up to a cap, + 500 (thorough 8000) random specs and schedules; '
+        'every effect trace is replayed label by label on the extracted WriterSched.wstep and an independent strict receiver reads the accepted octets. '
         'distinct = distinct case; non-trivial = at least one non-empty message.')
-ASSUMES = ['queue.Queue is FIFO and thread-safe; a transport returning n has taken data[:n] (n > len(data) means everything)',
+ASSUMES = ['WriterSched: _base is assigned only while no request is queued or dequeued-and-unframed (_post_connect returns after the assignment)',
+           'queue.Queue is FIFO and thread-safe; a transport returning n has taken data[:n] (n > len(data) means everything)',
            'messages are str: str.encode() is UTF-8; the model works on the octets',
            'CPython bytes %-formatting (b"%i") prints decimal without sign/padding: validated by every 1.1 case']
 TRUSTED = ['modelled, not verified: queue.Queue, threading, CPython bytes formatting/slicing',
            'tools/harness/fakesession.py in-memory transport and selector shim (rebinds ncclient.transport.session.selectors/TICK)',
+           'scheduled cases: tools/harness/sched.py, wr_sched.py, wr_check.py (scheduler, logging fields, scripted transport, effect log -> label mapping); '
+           'the queue is sched.SQueue (atomic put/get/empty) there, queue.Queue in the free-running thread cases',
            'peer cases: tools/harness/c01_peers.py (scripted TLS/SSH/Unix servers, recording session subclasses), c12_peers.py (certificates, host key); '
            'OpenSSL, paramiko and the loopback stack are peers, not verified; wall-clock bound 10 s per connection']
 
